@@ -24,7 +24,7 @@ import z3
 
 from . import sym as S
 from .path import Infeasible, Path, PathEnd
-from .sym import (ExcVal, SBool, SBytes, SInt, SMap, SObj, SRange, SReal, SSeq, Sym, T, Ty, Unsupported, concrete_of,
+from .sym import (ExcVal, SBool, SBytes, SBytesIO, SInt, SItems, SMap, SObj, SRange, SReal, SSeq, Sym, T, Ty, Unsupported, concrete_of,
                   simp, to_z3, wrap)
 
 # ----------------------------------------------------------------------------- control flow
@@ -832,7 +832,11 @@ class Interp:
         if isinstance(v, SBytes):
             return self.fresh(Ty(v.kind), hint)
         if isinstance(v, SSeq):
-            return self.fresh(Ty("seq", ety=v.ety, seqkind=v.kind), hint)
+            return self.fresh(Ty("seq", ety=v.ety, seqkind=v.kind, indexed=v.mem is not None), hint)
+        if isinstance(v, SMap):
+            return self.fresh(Ty("map", kty=v.kty, vty=v.vty, ordered=False), hint)
+        if isinstance(v, SBytesIO):
+            return self.fresh(T.bytesio, hint)
         raise Unsupported(f"cannot havoc loop variable {hint} of value {type(v).__name__}; give its type in the loop contract")
 
     # ------------------------------------------------------------------ clauses (specification expressions)
@@ -1193,7 +1197,16 @@ def fresh_value(I: Interp, ty: Ty, hint="v"):
         n = p.fresh_int(hint + "_len")
         p.add_pool(n)
         p.assume(n >= 0)
-        return SSeq(arr, n, ty.ety, ty.seqkind)
+        res = SSeq(arr, n, ty.ety, ty.seqkind)
+        if getattr(ty, "indexed", False):
+            mem = z3.Const(p.fresh_name(hint + "_mem"), z3.ArraySort(S.IntS, S.BoolS))
+            lpos = z3.Const(p.fresh_name(hint + "_lpos"), z3.ArraySort(S.IntS, S.IntS))
+            res.mem, res.lpos = mem, lpos
+            p.term_maps.append(lambda t, lpos=lpos: z3.Select(lpos, t))
+            p.qhyps.append(lambda t, arr=arr, n=n, mem=mem, lpos=lpos: z3.And(
+                z3.Implies(z3.And(t >= 0, t < n), z3.Select(mem, z3.Select(arr, t))),
+                z3.Implies(z3.Select(mem, t), z3.And(z3.Select(lpos, t) >= 0, z3.Select(lpos, t) < n, z3.Select(arr, z3.Select(lpos, t)) == t))))
+        return res
     if k == "fixed":
         return tuple(fresh_value(I, t, f"{hint}_{i}") for i, t in enumerate(ty.items))
     if k == "const":
@@ -1229,5 +1242,15 @@ def fresh_value(I: Interp, ty: Ty, hint="v"):
         ks = S.sort_of(ty.kty)
         has = z3.Const(p.fresh_name(hint + "_has"), z3.ArraySort(ks, S.BoolS))
         val = z3.Const(p.fresh_name(hint + "_val"), z3.ArraySort(ks, S.sort_of(ty.vty)))
-        return SMap(has, val, ty.kty, ty.vty)
+        m = SMap(has, val, ty.kty, ty.vty)
+        if getattr(ty, "ordered", False):
+            from .models import attach_key_order
+
+            attach_key_order(I, m, hint)
+        return m
+    if k == "bytesio":
+        buf = z3.Const(p.fresh_name(hint + "_buf"), S.SeqI)
+        pos = p.fresh_int(hint + "_pos")
+        p.assume(z3.And(pos >= 0, pos <= z3.Length(buf)))
+        return SBytesIO(buf, pos)
     raise Unsupported(f"fresh value of type {ty}")
